@@ -1,9 +1,520 @@
 package p11
 
-import "verifharness/core"
+import (
+	"fmt"
+	"math/big"
 
-func execMore(op string, a []string) string {
-	return "bad-op"
+	"github.com/btcsuite/btcd/btcec/v2"
+	"github.com/btcsuite/btcd/btcec/v2/ecdsa"
+	"github.com/btcsuite/btcd/btcec/v2/schnorr"
+	"github.com/btcsuite/btcd/chainhash/v2"
+	"verifharness/core"
+)
+
+func b01(b bool) string {
+	if b {
+		return "1"
+	}
+	return "0"
 }
 
-func genMore(g *core.Gen) {}
+func showJ(j *btcec.JacobianPoint) string {
+	if (j.X.IsZero() && j.Y.IsZero()) || j.Z.IsZero() {
+		return "inf"
+	}
+	j.ToAffine()
+	return hx(btcec.NewPublicKey(&j.X, &j.Y).SerializeCompressed())
+}
+
+func privFrom(s string) *btcec.PrivateKey {
+	b := unhex(s)
+	if len(b) != 32 {
+		panic("bad priv")
+	}
+	k, _ := btcec.PrivKeyFromBytes(b)
+	return k
+}
+
+func execMore(op string, a []string) string {
+	switch {
+	case op == "ssig" && len(a) == 1:
+		sig, err := schnorr.ParseSignature(unhex(a[0]))
+		if err != nil {
+			return "err"
+		}
+		return "ok " + hx(sig.Serialize())
+	case op == "xonly" && len(a) == 1:
+		pk, err := schnorr.ParsePubKey(unhex(a[0]))
+		if err != nil {
+			return "err"
+		}
+		return fmt.Sprintf("ok %x %x", pk.SerializeCompressed(), schnorr.SerializePubKey(pk))
+	case op == "pub" && len(a) == 1:
+		pk, err := btcec.ParsePubKey(unhex(a[0]))
+		if err != nil {
+			return "err"
+		}
+		return fmt.Sprintf("ok %x %x", pk.SerializeCompressed(), pk.SerializeUncompressed())
+	case op == "mulchk" && len(a) == 2:
+		pk, err := btcec.ParsePubKey(unhex(a[1]))
+		if err != nil {
+			return "err"
+		}
+		var k btcec.ModNScalar
+		k.SetByteSlice(unhex(a[0]))
+		var pj, res btcec.JacobianPoint
+		pk.AsJacobian(&pj)
+		btcec.ScalarMultNonConst(&k, &pj, &res)
+		s := showJ(&res)
+		return s + " " + s
+	case op == "ecdsav" && len(a) == 4:
+		var sig *ecdsa.Signature
+		var err error
+		if a[0] == "d" {
+			sig, err = ecdsa.ParseDERSignature(unhex(a[2]))
+		} else {
+			sig, err = ecdsa.ParseSignature(unhex(a[2]))
+		}
+		if err != nil {
+			return "err"
+		}
+		pk, err := btcec.ParsePubKey(unhex(a[3]))
+		if err != nil {
+			return "err"
+		}
+		return b01(sig.Verify(unhex(a[1]), pk))
+	case op == "ecdsas" && len(a) == 2:
+		k := privFrom(a[0])
+		msg := unhex(a[1])
+		sig := ecdsa.Sign(k, msg)
+		return fmt.Sprintf("%x %s", sig.Serialize(), b01(sig.Verify(msg, k.PubKey())))
+	case op == "compact" && len(a) == 3:
+		k := privFrom(a[0])
+		msg := unhex(a[1])
+		cs := ecdsa.SignCompact(k, msg, a[2] == "1")
+		pk, wc, err := ecdsa.RecoverCompact(cs, msg)
+		if err != nil {
+			return fmt.Sprintf("%x err", cs)
+		}
+		return fmt.Sprintf("%x %x %s", cs, pk.SerializeCompressed(), b01(wc))
+	case op == "rec" && len(a) == 2:
+		pk, wc, err := ecdsa.RecoverCompact(unhex(a[0]), unhex(a[1]))
+		if err != nil {
+			return "err"
+		}
+		return fmt.Sprintf("ok %x %s", pk.SerializeCompressed(), b01(wc))
+	case op == "schv" && len(a) == 3:
+		sig, err := schnorr.ParseSignature(unhex(a[1]))
+		if err != nil {
+			return "err"
+		}
+		pk, err := schnorr.ParsePubKey(unhex(a[2]))
+		if err != nil {
+			return "err"
+		}
+		return b01(sig.Verify(unhex(a[0]), pk))
+	case op == "schs" && len(a) == 3:
+		k := privFrom(a[0])
+		msg := unhex(a[1])
+		var opts []schnorr.SignOption
+		if a[2] != "rfc" {
+			var aux [32]byte
+			ab := unhex(a[2])
+			if len(ab) != 32 {
+				return "bad-op"
+			}
+			copy(aux[:], ab)
+			opts = append(opts, schnorr.CustomNonce(aux))
+		}
+		sig, err := schnorr.Sign(k, msg, opts...)
+		if err != nil {
+			return "err"
+		}
+		return fmt.Sprintf("%x %s", sig.Serialize(), b01(sig.Verify(msg, k.PubKey())))
+	case op == "ecdh" && len(a) == 2:
+		pk, err := btcec.ParsePubKey(unhex(a[1]))
+		if err != nil {
+			return "err"
+		}
+		return hx(btcec.GenerateSharedSecret(privFrom(a[0]), pk))
+	case op == "ecdh2" && len(a) == 2:
+		ka, kb := privFrom(a[0]), privFrom(a[1])
+		return fmt.Sprintf("%x %x", btcec.GenerateSharedSecret(ka, kb.PubKey()), btcec.GenerateSharedSecret(kb, ka.PubKey()))
+	}
+	return execMusig(op, a)
+}
+
+// ---------------------------------------------------------------- generators
+
+func edgePrivs() []*big.Int {
+	return []*big.Int{big.NewInt(1), big.NewInt(2), big.NewInt(3), add(curveN, -1), add(curveN, -2), halfN, add(halfN, 1), add(halfN, -1)}
+}
+
+func randPriv(r *core.Rand) *big.Int {
+	if r.Chance(1, 6) {
+		e := edgePrivs()
+		return e[r.Intn(len(e))]
+	}
+	return add(randBelow(r, add(curveN, -1)), 1)
+}
+
+func pubOf(d *big.Int) *btcec.PublicKey {
+	_, pk := btcec.PrivKeyFromBytes(b32(d))
+	return pk
+}
+
+func hybrid(pk *btcec.PublicKey) []byte {
+	b := pk.SerializeUncompressed()
+	b[0] = 0x06 | (b[64] & 1)
+	return b
+}
+
+// pubFormats: the same point in every accepted encoding.
+func pubFormats(pk *btcec.PublicKey) [][]byte {
+	return [][]byte{pk.SerializeCompressed(), pk.SerializeUncompressed(), hybrid(pk)}
+}
+
+func genPub(g *core.Gen) {
+	r := g.R.Fork()
+	emit := func(class string, b []byte) {
+		g.Case("pub:"+class, len(b) == 33 || len(b) == 65, "C11 pub "+hx(b))
+	}
+	fieldEdges := []*big.Int{big.NewInt(0), big.NewInt(1), big.NewInt(2), add(curveP, -1), curveP, add(curveP, 1), add(curveP, 2),
+		add(curveP, 7), curveN, new(big.Int).Sub(new(big.Int).Lsh(big.NewInt(1), 256), big.NewInt(1))}
+	for i := 0; i < g.N(120, 2000); i++ {
+		pk := pubOf(randPriv(r))
+		for _, b := range pubFormats(pk) {
+			emit("valid", b)
+		}
+		// every prefix byte on the valid bodies
+		comp, unc := pk.SerializeCompressed(), pk.SerializeUncompressed()
+		pre := byte(r.Intn(256))
+		if i < 9 {
+			pre = byte(i)
+		}
+		c2 := append([]byte{pre}, comp[1:]...)
+		emit("prefix33", c2)
+		u2 := append([]byte{pre}, unc[1:]...)
+		emit("prefix65", u2)
+		// hybrid with the wrong parity
+		h := hybrid(pk)
+		h[0] ^= 1
+		emit("hybrid-parity", h)
+		// other compressed parity (valid: the negated point)
+		c3 := append([]byte{}, comp...)
+		c3[0] ^= 1
+		emit("valid-neg", c3)
+		// uncompressed with negated y (valid) and with y off by one / swapped coordinates (off curve)
+		y := new(big.Int).SetBytes(unc[33:])
+		ny := new(big.Int).Sub(curveP, y)
+		emit("valid-negy", append(append([]byte{4}, unc[1:33]...), b32(ny)...))
+		emit("offcurve-y1", append(append([]byte{byte(r.Pick(4, 6, 7))}, unc[1:33]...), b32(add(y, 1))...))
+		emit("offcurve-swap", append(append([]byte{4}, unc[33:]...), unc[1:33]...))
+		// y + p (same residue, out of range) where it fits in 32 bytes
+		yp := new(big.Int).Add(y, curveP)
+		if yp.BitLen() <= 256 {
+			emit("y-ge-p", append(append([]byte{4}, unc[1:33]...), b32(yp)...))
+		}
+		x := new(big.Int).SetBytes(unc[1:33])
+		xp := new(big.Int).Add(x, curveP)
+		if xp.BitLen() <= 256 {
+			emit("x-ge-p", append([]byte{comp[0]}, b32(xp)...))
+			emit("x-ge-p", append(append([]byte{4}, b32(xp)...), unc[33:]...))
+		}
+		// wrong lengths
+		switch r.Intn(6) {
+		case 0:
+			emit("len", comp[:32])
+		case 1:
+			emit("len", append(comp, 0))
+		case 2:
+			emit("len", unc[:64])
+		case 3:
+			emit("len", append(unc, 0))
+		case 4:
+			emit("len", comp[1:])
+		case 5:
+			emit("len", unc[1:])
+		}
+		// random x (about half are on the curve)
+		emit("random-x", append([]byte{byte(2 + r.Intn(2))}, r.Bytes(32)...))
+		emit("random-xy", append([]byte{byte(r.Pick(4, 6, 7))}, r.Bytes(64)...))
+	}
+	for _, e := range fieldEdges {
+		for _, pre := range []byte{2, 3} {
+			emit("edge-x", append([]byte{pre}, b32(e)...))
+		}
+		for _, e2 := range fieldEdges {
+			emit("edge-xy", append(append([]byte{byte(r.Pick(4, 6, 7))}, b32(e)...), b32(e2)...))
+		}
+	}
+	emit("len", nil)
+	// x-only keys
+	emitX := func(class string, b []byte) {
+		g.Case("xonly:"+class, len(b) == 32, "C11 xonly "+hx(b))
+	}
+	for i := 0; i < g.N(150, 2000); i++ {
+		pk := pubOf(randPriv(r))
+		xb := schnorr.SerializePubKey(pk)
+		emitX("valid", xb)
+		emitX("random", r.Bytes(32))
+		x := new(big.Int).SetBytes(xb)
+		if xp := new(big.Int).Add(x, curveP); xp.BitLen() <= 256 {
+			emitX("x-ge-p", b32(xp))
+		}
+		if i%10 == 0 {
+			emitX("len", xb[:31])
+			emitX("len", append(append([]byte{}, xb...), 0))
+			emitX("len", pk.SerializeCompressed())
+		}
+	}
+	for _, e := range fieldEdges {
+		emitX("edge", b32(e))
+	}
+	emitX("len", nil)
+}
+
+func genSchnorrSigParse(g *core.Gen) {
+	r := g.R.Fork()
+	edges := edgeInts()
+	fit := func(v *big.Int) []byte {
+		if v.BitLen() > 256 {
+			v = new(big.Int).Sub(new(big.Int).Lsh(big.NewInt(1), 256), big.NewInt(1))
+		}
+		return b32(v)
+	}
+	emit := func(class string, b []byte) {
+		g.Case("ssig:"+class, len(b) == 64, "C11 ssig "+hx(b))
+	}
+	for _, e := range edges {
+		emit("edge-r", append(fit(e), fit(randScalarish(r, edges))...))
+		emit("edge-s", append(r.Bytes(32), fit(e)...))
+		for _, e2 := range edges {
+			if r.Chance(1, 8) {
+				emit("edge-rs", append(fit(e), fit(e2)...))
+			}
+		}
+	}
+	for i := 0; i < g.N(300, 3000); i++ {
+		emit("random", r.Bytes(64))
+		if i%20 == 0 {
+			emit("len", r.Bytes(int(r.Pick(0, 1, 32, 63, 65, 96))))
+		}
+	}
+}
+
+func randMsg(r *core.Rand) []byte {
+	switch r.Intn(12) {
+	case 0:
+		return make([]byte, 32)
+	case 1:
+		return bytesOf(0xff, 32)
+	case 2:
+		return b32(curveN) // message integer = n: reduces to 0
+	case 3:
+		return b32(add(curveN, 1))
+	}
+	return r.Bytes(32)
+}
+
+func bytesOf(b byte, n int) []byte {
+	out := make([]byte, n)
+	for i := range out {
+		out[i] = b
+	}
+	return out
+}
+
+func genSignVerify(g *core.Gen) {
+	r := g.R.Fork()
+	edges := edgeInts()
+	// ECDSA: sign (RFC6979), compact sign + recover
+	for i := 0; i < g.N(60, 1500); i++ {
+		d, msg := randPriv(r), randMsg(r)
+		g.Case("ecdsa-sign", true, fmt.Sprintf("C11 ecdsas %x %x", b32(d), msg))
+		if i%3 == 0 {
+			g.Case("compact", true, fmt.Sprintf("C11 compact %x %x %d", b32(d), msg, r.Intn(2)))
+		}
+	}
+	// ECDSA verify on (message, signature, key) triples: right and wrong ones
+	for i := 0; i < g.N(60, 1500); i++ {
+		d, msg := randPriv(r), randMsg(r)
+		priv, pk := btcec.PrivKeyFromBytes(b32(d))
+		sig := ecdsa.Sign(priv, msg)
+		rs, ss := sig.R(), sig.S()
+		rv, sv := new(big.Int).SetBytes(bytesArr(rs.Bytes())), new(big.Int).SetBytes(bytesArr(ss.Bytes()))
+		der := func(rv, sv *big.Int) []byte {
+			return derShape{seqTag: 0x30, rTag: 2, sTag: 2, rBody: minimalBody(rv), sBody: minimalBody(sv)}.bytes()
+		}
+		fm := pubFormats(pk)
+		emit := func(class, mode string, m, s, p []byte) {
+			g.Case("ecdsa-verify:"+class, true, fmt.Sprintf("C11 ecdsav %s %x %x %x", mode, m, s, p))
+		}
+		emit("valid", "d", msg, der(rv, sv), fm[r.Intn(3)])
+		emit("valid-high-s", "d", msg, der(rv, new(big.Int).Sub(curveN, sv)), fm[r.Intn(3)])
+		emit("valid-lax", "l", msg, derShape{seqTag: 0x30, rTag: 2, sTag: 2, rBody: append(make([]byte, r.Intn(3)), minimalBody(rv)...), sBody: append(make([]byte, r.Intn(50)), minimalBody(sv)...)}.bytes(), fm[r.Intn(3)])
+		switch i % 6 {
+		case 0:
+			m2 := append([]byte{}, msg...)
+			m2[r.Intn(32)] ^= 1 << uint(r.Intn(8))
+			emit("wrong-msg", "d", m2, der(rv, sv), fm[0])
+		case 1:
+			emit("wrong-key", "d", msg, der(rv, sv), pubOf(randPriv(r)).SerializeCompressed())
+		case 2:
+			emit("wrong-r", "d", msg, der(add(rv, 1), sv), fm[0])
+		case 3:
+			emit("wrong-s", "d", msg, der(rv, add(sv, 1)), fm[0])
+		case 4:
+			neg := append([]byte{}, fm[0]...)
+			neg[0] ^= 1
+			emit("negated-key", "d", msg, der(rv, sv), neg)
+		case 5:
+			emit("edge-rs", "l", msg, der(randScalarish(r, edges), randScalarish(r, edges)), fm[0])
+		}
+	}
+	// compact recovery on arbitrary input
+	for i := 0; i < g.N(40, 1000); i++ {
+		d, msg := randPriv(r), randMsg(r)
+		priv, _ := btcec.PrivKeyFromBytes(b32(d))
+		cs := ecdsa.SignCompact(priv, msg, r.Bool())
+		switch r.Intn(5) {
+		case 0:
+			cs[0] = byte(r.Pick(26, 27, 30, 31, 34, 35, 0, 255))
+		case 1:
+			cs[0] ^= byte(1 + r.Intn(3))
+		case 2:
+			e := edges[r.Intn(len(edges))]
+			if e.BitLen() <= 256 {
+				copy(cs[1:33], b32(e))
+			}
+		case 3:
+			e := edges[r.Intn(len(edges))]
+			if e.BitLen() <= 256 {
+				copy(cs[33:], b32(e))
+			}
+		case 4:
+			if r.Bool() {
+				cs = cs[:64]
+			} else {
+				cs = append(cs, 0)
+			}
+		}
+		g.Case("recover", true, fmt.Sprintf("C11 rec %s %x", hx(cs), msg))
+	}
+	// Schnorr: sign with aux randomness (BIP340) and with RFC6979
+	for i := 0; i < g.N(80, 2000); i++ {
+		d, msg := randPriv(r), randMsg(r)
+		aux := "rfc"
+		if i%2 == 0 {
+			a := r.Bytes(32)
+			if i%10 == 0 {
+				a = make([]byte, 32)
+			}
+			aux = hx(a)
+		}
+		g.Case("schnorr-sign", true, fmt.Sprintf("C11 schs %x %x %s", b32(d), msg, aux))
+	}
+	g.Case("schnorr-sign-edge", true, fmt.Sprintf("C11 schs %x %x rfc", b32(big.NewInt(0)), r.Bytes(32)))
+	g.Case("schnorr-sign-edge", true, fmt.Sprintf("C11 schs %x %x rfc", b32(curveN), r.Bytes(32)))
+	g.Case("schnorr-sign-edge", true, fmt.Sprintf("C11 schs %x %x rfc", b32(big.NewInt(5)), r.Bytes(31)))
+	g.Case("schnorr-sign-edge", true, fmt.Sprintf("C11 schs %x %x %x", b32(big.NewInt(5)), r.Bytes(33), r.Bytes(32)))
+	// Schnorr verify triples
+	for i := 0; i < g.N(80, 2000); i++ {
+		d, msg := randPriv(r), randMsg(r)
+		priv, pk := btcec.PrivKeyFromBytes(b32(d))
+		sig, err := schnorr.Sign(priv, msg)
+		if err != nil {
+			continue
+		}
+		sb := sig.Serialize()
+		xb := schnorr.SerializePubKey(pk)
+		emit := func(class string, m, s, p []byte) {
+			g.Case("schnorr-verify:"+class, true, fmt.Sprintf("C11 schv %s %s %s", hx(m), hx(s), hx(p)))
+		}
+		emit("valid", msg, sb, xb)
+		s2 := append([]byte{}, sb...)
+		switch i % 8 {
+		case 0:
+			m2 := append([]byte{}, msg...)
+			m2[r.Intn(32)] ^= 1 << uint(r.Intn(8))
+			emit("wrong-msg", m2, sb, xb)
+		case 1:
+			emit("wrong-key", msg, sb, schnorr.SerializePubKey(pubOf(randPriv(r))))
+		case 2:
+			// negated s
+			sv := new(big.Int).SetBytes(sb[32:])
+			copy(s2[32:], b32(new(big.Int).Sub(curveN, sv)))
+			emit("neg-s", msg, s2, xb)
+		case 3:
+			s2[r.Intn(64)] ^= 1 << uint(r.Intn(8))
+			emit("flip", msg, s2, xb)
+		case 4:
+			// a signature whose R has odd y / whose key was not negated: must be rejected
+			emit("odd-R", msg, oddSchnorr(d, msg, r, true), xb)
+		case 5:
+			emit("odd-P", msg, oddSchnorr(d, msg, r, false), xb)
+		case 6:
+			e := edges[r.Intn(len(edges))]
+			if e.BitLen() <= 256 {
+				copy(s2[32*r.Intn(2):], b32(e))
+			}
+			emit("edge-rs", msg, s2, xb)
+		case 7:
+			emit("msg-len", msg[:r.Intn(32)], sb, xb)
+		}
+	}
+	// ECDH
+	for i := 0; i < g.N(40, 1000); i++ {
+		a, b := randPriv(r), randPriv(r)
+		g.Case("ecdh2", true, fmt.Sprintf("C11 ecdh2 %x %x", b32(a), b32(b)))
+		fm := pubFormats(pubOf(b))
+		g.Case("ecdh", true, fmt.Sprintf("C11 ecdh %x %x", b32(a), fm[r.Intn(3)]))
+	}
+	// scalar multiplication cross-check (fast path vs textbook vs btcec)
+	for i := 0; i < g.N(25, 400); i++ {
+		k := randScalarish(r, edges)
+		if k.BitLen() > 256 {
+			continue
+		}
+		g.Case("mulchk", true, fmt.Sprintf("C11 mulchk %x %x", b32(k), pubOf(randPriv(r)).SerializeCompressed()))
+	}
+}
+
+func bytesArr(a [32]byte) []byte { return a[:] }
+
+// oddSchnorr builds a BIP340-shaped signature that skips one of the two negation rules, using btcec's own
+// scalar arithmetic: oddR => the nonce is chosen so that R has odd y and is NOT negated; otherwise the key
+// d is chosen/used without negation although P has odd y (falls back to a plain valid signature when P
+// happens to have even y).
+func oddSchnorr(d *big.Int, msg []byte, r *core.Rand, oddR bool) []byte {
+	var ds, ks btcec.ModNScalar
+	ds.SetByteSlice(b32(d))
+	pk := pubOf(d)
+	pkOdd := pk.SerializeCompressed()[0] == 3
+	if oddR && pkOdd {
+		ds.Negate()
+	}
+	for {
+		ks.SetByteSlice(b32(randPriv(r)))
+		var R btcec.JacobianPoint
+		btcec.ScalarBaseMultNonConst(&ks, &R)
+		R.ToAffine()
+		if oddR != R.Y.IsOdd() {
+			continue
+		}
+		rx := R.X.Bytes()
+		e := chainhash.TaggedHash(chainhash.TagBIP0340Challenge, rx[:], schnorr.SerializePubKey(pk), msg)
+		var es btcec.ModNScalar
+		es.SetByteSlice(e[:])
+		s := new(btcec.ModNScalar).Mul2(&es, &ds).Add(&ks)
+		sb := s.Bytes()
+		return append(rx[:], sb[:]...)
+	}
+}
+
+func genMore(g *core.Gen) {
+	genPub(g)
+	genSchnorrSigParse(g)
+	genSignVerify(g)
+	genMusig(g)
+}
